@@ -122,7 +122,7 @@ class ProfileBase(metaclass=abc.ABCMeta):
             if mask.shape != data.shape:
                 raise ValueError('mask must have the same shape as data')
             badmask &= ~mask  # non-finite values not in input mask
-            mask |= badmask  # all masked pixels
+            mask = mask | badmask  # all masked pixels (new array)
         else:
             mask = badmask
 
